@@ -4,9 +4,12 @@
 //! (repository fixture or builder-made artifact) the complete set of mutants at one
 //! deviation (byte substitutions, truncations/extensions, 2/3/4/5/8-byte field windows set to
 //! boundary values in both endiannesses) — and at two deviations inside headers/footers in
-//! the thorough tier — is generated and parsed inside a worker process with a counting
-//! allocator. Oracle C02: returns within the time limit, no panic, no abort, no single
-//! allocation request beyond the documented cap / out of proportion to the input.
+//! the thorough tier, plus the seed moved by a few bytes inside its own length (class `shift`) —
+//! is generated and parsed inside a worker process with a counting allocator. Parsers whose
+//! result is only a description for a consumer are run as parse + use (an ESpec is handed to
+//! the block-range functions of the patch archive module). Oracle C02: returns within the
+//! time limit, no panic, no abort, no single allocation request beyond the documented cap /
+//! out of proportion to the input.
 //!
 //! C08 (mode "c08") has three parts, all evaluated in the same isolated workers:
 //!  (i)   accepted mutants: `y = build(parse(x))` succeeds, `parse(y)` succeeds,
@@ -60,9 +63,17 @@ pub struct Target {
     /// C08 fixed-point check on an accepted input
     pub fix: Option<fn(&[u8]) -> FixResult>,
     pub seeds: fn() -> Vec<(String, Vec<u8>)>,
-    /// (alphabet tokens, max tokens) for short-text enumeration
-    pub text: Option<(&'static [&'static str], usize, usize)>,
+    /// (alphabet tokens, max tokens quick, max tokens thorough, frames) for short-text enumeration
+    pub text: Option<TextSpec>,
 }
+
+/// Short-text enumeration of a text target: the grammar tokens, the longest token string of the
+/// quick and of the thorough tier, and the *frames* — (prefix, suffix) pairs cut out of real
+/// inputs of the format at a parameter position. Every token string is evaluated on its own
+/// and inside every frame, so that the enumeration also starts from the inside of a real
+/// structure (a size field, a parameter list) instead of only from the empty string.
+pub type TextSpec = (&'static [&'static str], usize, usize, &'static [(&'static str, &'static str)]);
+const NO_FRAMES: &[(&str, &str)] = &[];
 
 // ---------------------------------------------------------------- generic adapters
 
@@ -709,8 +720,30 @@ mod t {
         with_small(fixtures("tvfs", &[".blte"]), small("tvfs_blte"))
     }
 
+    /// What the consumers of an ESpec do with an accepted one (the spec string of a patch
+    /// manifest and of an encoding table is CDN data): find the codec of an offset and cut a
+    /// payload into the chunks the spec describes.
+    pub fn use_espec(spec: &cascette_formats::espec::ESpec) {
+        use cascette_formats::patch_archive::{decompress_patch_data, get_compression_at_offset};
+        for off in [0u64, 5, u64::MAX] {
+            let _ = get_compression_at_offset(spec, off);
+        }
+        let _ = decompress_patch_data(b"hello world", spec);
+    }
+
+    /// parse + use: the encoding info of the extended header carries an ESpec string
     pub fn patch_archive_run(d: &[u8]) -> bool {
-        <PatchArchive as CascFormat>::parse(d).is_ok()
+        match <PatchArchive as CascFormat>::parse(d) {
+            Ok(pa) => {
+                if let Some(info) = &pa.encoding_info {
+                    if let Ok(spec) = cascette_formats::patch_archive::parse_compression_spec(&info.espec) {
+                        use_espec(&spec);
+                    }
+                }
+                true
+            }
+            Err(_) => false,
+        }
     }
     pub fn patch_archive_fix(d: &[u8]) -> FixResult {
         casc_fix::<PatchArchive>(d, proj::patch_archive)
@@ -722,8 +755,30 @@ mod t {
     pub fn patch_index_run(d: &[u8]) -> bool {
         <PatchIndex as CascFormat>::parse(d).is_ok()
     }
+    /// The header of a patch index has a parse/build pair of its own (`PatchIndex::build`
+    /// writes a fresh header and never calls it): what `PatchIndexHeader::parse` accepts,
+    /// `PatchIndexHeader::build` must be able to write, the written header must be accepted
+    /// again in front of the same blocks, say the same (key, extra data, block descriptors)
+    /// and be written the same way a second time.
     pub fn patch_index_fix(d: &[u8]) -> FixResult {
-        casc_fix::<PatchIndex>(d, proj::patch_index)
+        use cascette_formats::patch_index::PatchIndexHeader;
+        casc_fix::<PatchIndex>(d, proj::patch_index)?;
+        let Ok(h) = PatchIndexHeader::parse(d) else { return Ok(()) };
+        let y = h.build();
+        // the blocks follow the header; `header_size` is a field the header keeps as read
+        let mut z = y.clone();
+        z.extend_from_slice(&d[(h.header_size as usize).min(d.len())..]);
+        // (room for the size check of parse: header_size + block sizes ≤ length)
+        z.resize(z.len().max(d.len()), 0);
+        let h2 = PatchIndexHeader::parse(&z).map_err(|e| fix_err("reparse-fails", format!("header:{}", norm_err(&e.to_string())), format!("PatchIndexHeader::build(parse(x)) is rejected by PatchIndexHeader::parse: {e}")))?;
+        let show = |h: &PatchIndexHeader| format!("key_size={} key={} extra={} blocks={:?}", h.key_size, hex::encode(h.key_data), hex::encode(&h.extra_data), h.blocks.iter().map(|b| (b.block_type, b.block_size)).collect::<Vec<_>>());
+        if show(&h) != show(&h2) {
+            return Err(fix_err("logical-content-changed", "header", format!("patch index header before and after build/parse: `{}` vs `{}`", show(&h), show(&h2))));
+        }
+        if h2.build() != y {
+            return Err(fix_err("not-a-fixed-point", "header", "the second PatchIndexHeader::build differs from the first".to_string()));
+        }
+        Ok(())
     }
     pub fn patch_index_seeds() -> Vec<(String, Vec<u8>)> {
         with_small(fixtures("patch_index", &[".bin"]), small("patch_index"))
@@ -762,7 +817,24 @@ mod t {
     cfg_target!(product_config_run, product_config_fix, ProductConfig, proj::product_config);
     cfg_target!(keyring_config_run, keyring_config_fix, KeyringConfig, proj::keyring_config);
     cfg_target!(bpsv_run, bpsv_fix, BpsvDocument, proj::bpsv);
-    cfg_target!(espec_run, espec_fix, ESpec, proj::espec);
+    /// parse + use (`ESpec::parse` is the parser of the spec strings an encoding table and a
+    /// patch manifest carry; `parse_compression_spec` is the patch manifest's entry point, which
+    /// also takes the brace-only form)
+    pub fn espec_run(d: &[u8]) -> bool {
+        let r = <ESpec as CascFormat>::parse(d);
+        if let Ok(spec) = &r {
+            use_espec(spec);
+        }
+        if let Ok(text) = std::str::from_utf8(d) {
+            if let Ok(spec) = cascette_formats::patch_archive::parse_compression_spec(text) {
+                use_espec(&spec);
+            }
+        }
+        r.is_ok()
+    }
+    pub fn espec_fix(d: &[u8]) -> FixResult {
+        casc_fix::<ESpec>(d, proj::espec)
+    }
 
     pub fn build_config_seeds() -> Vec<(String, Vec<u8>)> {
         let mut v = vec![
@@ -978,7 +1050,12 @@ mod t {
 
 pub fn targets() -> Vec<Target> {
     // 18014398509481984 = 2^54: with a K/M unit the size no longer fits 64 bits
-    const ESPEC_TOK: &[&str] = &["b", "z", "n", "e", "c", "g", ":", "{", "}", "=", "*", ",", "0", "1", "9", "K", "M", "18014398509481984"];
+    // 18446744073709551615 = 2^64 - 1, the largest number the grammar's sizes can say; `mpq` is the
+    // grammar's keyword (a zlib variant)
+    const ESPEC_TOK: &[&str] = &["b", "z", "n", "e", "c", "g", ":", "{", "}", "=", "*", ",", "0", "1", "9", "K", "M", "18014398509481984", "18446744073709551615", "mpq"];
+    // parameter positions of the ESpec seeds: the zlib parameter list, the size specification
+    // and the content specification of a block, the content specification of an encrypted block
+    const ESPEC_FRAMES: &[(&str, &str)] = &[("z:{", "}"), ("b:{", "=n,*=z}"), ("b:{164=", ",*=n}"), ("e:{0123456789abcdef,01234567,", "}")];
     const BPSV_TOK: &[&str] = &["#", "!", "|", ":", "\n", "\r", "S", "D", "H", "0", "1", "a"];
     const CFG_TOK: &[&str] = &["=", "#", "\n", " ", "a", "0"];
     vec![
@@ -996,20 +1073,20 @@ pub fn targets() -> Vec<Target> {
         Target { name: "patch-archive", run: t::patch_archive_run, decompresses: true, fix: Some(t::patch_archive_fix), seeds: t::patch_archive_seeds, text: None },
         Target { name: "patch-index", run: t::patch_index_run, decompresses: false, fix: Some(t::patch_index_fix), seeds: t::patch_index_seeds, text: None },
         Target { name: "zbsdiff", run: t::zbsdiff_run, decompresses: true, fix: Some(t::zbsdiff_fix), seeds: t::zbsdiff_seeds, text: None },
-        Target { name: "build-config", run: t::build_config_run, decompresses: false, fix: Some(t::build_config_fix), seeds: t::build_config_seeds, text: Some((CFG_TOK, 5, 6)) },
-        Target { name: "cdn-config", run: t::cdn_config_run, decompresses: false, fix: Some(t::cdn_config_fix), seeds: t::cdn_config_seeds, text: Some((CFG_TOK, 5, 6)) },
-        Target { name: "patch-config", run: t::patch_config_run, decompresses: false, fix: Some(t::patch_config_fix), seeds: t::patch_config_seeds, text: Some((CFG_TOK, 5, 6)) },
+        Target { name: "build-config", run: t::build_config_run, decompresses: false, fix: Some(t::build_config_fix), seeds: t::build_config_seeds, text: Some((CFG_TOK, 5, 6, NO_FRAMES)) },
+        Target { name: "cdn-config", run: t::cdn_config_run, decompresses: false, fix: Some(t::cdn_config_fix), seeds: t::cdn_config_seeds, text: Some((CFG_TOK, 5, 6, NO_FRAMES)) },
+        Target { name: "patch-config", run: t::patch_config_run, decompresses: false, fix: Some(t::patch_config_fix), seeds: t::patch_config_seeds, text: Some((CFG_TOK, 5, 6, NO_FRAMES)) },
         Target { name: "product-config", run: t::product_config_run, decompresses: false, fix: Some(t::product_config_fix), seeds: t::product_config_seeds, text: None },
-        Target { name: "keyring-config", run: t::keyring_config_run, decompresses: false, fix: Some(t::keyring_config_fix), seeds: t::keyring_config_seeds, text: Some((CFG_TOK, 5, 6)) },
-        Target { name: "bpsv", run: t::bpsv_run, decompresses: false, fix: Some(t::bpsv_fix), seeds: t::bpsv_seeds, text: Some((BPSV_TOK, 4, 6)) },
-        Target { name: "espec", run: t::espec_run, decompresses: false, fix: Some(t::espec_fix), seeds: t::espec_seeds, text: Some((ESPEC_TOK, 4, 5)) },
+        Target { name: "keyring-config", run: t::keyring_config_run, decompresses: false, fix: Some(t::keyring_config_fix), seeds: t::keyring_config_seeds, text: Some((CFG_TOK, 5, 6, NO_FRAMES)) },
+        Target { name: "bpsv", run: t::bpsv_run, decompresses: false, fix: Some(t::bpsv_fix), seeds: t::bpsv_seeds, text: Some((BPSV_TOK, 4, 6, NO_FRAMES)) },
+        Target { name: "espec", run: t::espec_run, decompresses: false, fix: Some(t::espec_fix), seeds: t::espec_seeds, text: Some((ESPEC_TOK, 4, 5, ESPEC_FRAMES)) },
         Target { name: "v1-mime", run: t::mime_run, decompresses: false, fix: None, seeds: t::mime_seeds, text: None },
         Target { name: "local-idx", run: t::local_idx_run, decompresses: false, fix: None, seeds: t::local_idx_seeds, text: None },
         Target { name: "update-section", run: t::update_section_run, decompresses: false, fix: None, seeds: t::update_section_seeds, text: None },
         Target { name: "residency-db", run: t::residency_run, decompresses: false, fix: None, seeds: t::residency_seeds, text: None },
         Target { name: "lru-file", run: t::lru_run, decompresses: false, fix: None, seeds: t::lru_seeds, text: None },
         Target { name: "shmem-control-block", run: t::shmem_run, decompresses: false, fix: None, seeds: t::shmem_seeds, text: None },
-        Target { name: "build-info", run: t::build_info_run, decompresses: false, fix: None, seeds: t::build_info_seeds, text: Some((BPSV_TOK, 4, 5)) },
+        Target { name: "build-info", run: t::build_info_run, decompresses: false, fix: None, seeds: t::build_info_seeds, text: Some((BPSV_TOK, 4, 5, NO_FRAMES)) },
         Target { name: "local-header", run: t::local_header_run, decompresses: false, fix: None, seeds: t::local_header_seeds, text: None },
     ]
 }
@@ -1032,6 +1109,9 @@ pub enum Class {
     /// the same field of two or three consecutive records set to the same boundary value
     Stride,
     Text,
+    /// the whole seed moved by a few bytes inside its own length, alone and with one boundary
+    /// substitution near either end
+    Shift,
     /// C08 part (ii): builder values (the "seed" is the format, the case index the program)
     Builder,
     /// C08 part (iii): unmodified fixtures
@@ -1048,6 +1128,7 @@ impl Class {
             Class::Pair => "pair",
             Class::Stride => "stride",
             Class::Text => "text",
+            Class::Shift => "shift",
             Class::Builder => "builder",
             Class::Fixture => "fixture",
         }
@@ -1060,6 +1141,7 @@ impl Class {
             "window" => Class::Window,
             "pair" => Class::Pair,
             "stride" => Class::Stride,
+            "shift" => Class::Shift,
             "builder" => Class::Builder,
             "fixture" => Class::Fixture,
             _ => Class::Text,
@@ -1278,7 +1360,48 @@ fn stride_cases(n: usize, thorough: bool) -> Vec<(Vec<usize>, Vec<u8>)> {
     out
 }
 
-fn class_count(class: Class, seed: &[u8], full: bool, thorough: bool, c08: bool, text: Option<(&'static [&'static str], usize, usize)>) -> u64 {
+/// Shift cases: the seed moved by k ∈ {1,2,4,8,16} bytes inside its own length — towards the end
+/// (the last k bytes fall off, the front is filled) or towards the start (the first k bytes fall
+/// off, the end is filled), fill 00 or FF — alone, and with one boundary-value substitution in the
+/// first or last 32 bytes. A format that finds one of its structures from two anchors (a length
+/// byte read at a fixed distance from the end *and* again inside the structure that byte
+/// locates; a table addressed from the start and from the footer) agrees with itself on every
+/// valid file; it is on files whose content sits a few bytes off that the two readings part.
+const SHIFTS: [usize; 5] = [1, 2, 4, 8, 16];
+/// Seeds above this size do not get the shift class.
+pub const SHIFT_MAX: usize = 8192;
+
+fn shift_bases(seed: &[u8]) -> Vec<Vec<u8>> {
+    let n = seed.len();
+    let mut out = Vec::new();
+    for k in SHIFTS {
+        if k >= n {
+            continue;
+        }
+        for fill in [0x00u8, 0xFF] {
+            let mut right = vec![fill; k];
+            right.extend_from_slice(&seed[..n - k]);
+            let mut left = seed[k..].to_vec();
+            left.extend(std::iter::repeat_n(fill, k));
+            for b in [right, left] {
+                if b != seed && !out.contains(&b) {
+                    out.push(b);
+                }
+            }
+        }
+    }
+    out
+}
+
+fn shift_positions(n: usize) -> Vec<usize> {
+    let mut v: Vec<usize> = (0..n.min(32)).collect();
+    v.extend(n.saturating_sub(32)..n);
+    v.sort_unstable();
+    v.dedup();
+    v
+}
+
+fn class_count(class: Class, seed: &[u8], full: bool, thorough: bool, c08: bool, text: Option<TextSpec>) -> u64 {
     let n = seed.len();
     match class {
         Class::Subst => {
@@ -1294,8 +1417,12 @@ fn class_count(class: Class, seed: &[u8], full: bool, thorough: bool, c08: bool,
             k * k.saturating_sub(1) / 2
         }
         Class::Stride => stride_cases(n, thorough).len() as u64,
+        Class::Shift => {
+            let pos = shift_positions(n);
+            shift_bases(seed).iter().map(|b| 1 + pos.iter().map(|p| BOUNDARY.iter().filter(|v| **v != b[*p]).count() as u64).sum::<u64>()).sum()
+        }
         Class::Text => match text {
-            Some((tok, lq, lt)) => {
+            Some((tok, lq, lt, frames)) => {
                 let l = if thorough { lt } else { lq };
                 let k = tok.len() as u64;
                 let mut total = 0u64;
@@ -1304,8 +1431,9 @@ fn class_count(class: Class, seed: &[u8], full: bool, thorough: bool, c08: bool,
                     total += p;
                     p *= k;
                 }
-                // plus every string of ≤ 2 arbitrary bytes, plus the repetition cases
-                total + 1 + 256 + 65536 + repeat_count(k)
+                // plus every string of ≤ 2 arbitrary bytes, plus the repetition cases, plus the
+                // token strings once more inside every frame
+                total + 1 + 256 + 65536 + repeat_count(k) + frames.len() as u64 * total
             }
             None => 0,
         },
@@ -1336,7 +1464,7 @@ fn repeat_case(k: u64, c: u64) -> (u64, usize, Option<u64>) {
 }
 
 /// Enumerate the cases lo..hi of a class, calling `f(idx, bytes)`.
-fn for_each_case(class: Class, seed: &[u8], full: bool, thorough: bool, c08: bool, text: Option<(&'static [&'static str], usize, usize)>, lo: u64, hi: u64, mut f: impl FnMut(u64, &[u8])) {
+fn for_each_case(class: Class, seed: &[u8], full: bool, thorough: bool, c08: bool, text: Option<TextSpec>, lo: u64, hi: u64, mut f: impl FnMut(u64, &[u8])) {
     let n = seed.len();
     let mut buf = seed.to_vec();
     let mut idx = 0u64;
@@ -1464,7 +1592,7 @@ fn for_each_case(class: Class, seed: &[u8], full: bool, thorough: bool, c08: boo
             }
         }
         Class::Text => {
-            let Some((tok, lq, lt)) = text else { return };
+            let Some((tok, lq, lt, frames)) = text else { return };
             let l = if thorough { lt } else { lq };
             let k = tok.len();
             // strings of 0..=l tokens in length-lexicographic order
@@ -1530,6 +1658,66 @@ fn for_each_case(class: Class, seed: &[u8], full: bool, thorough: bool, c08: boo
                 }
                 idx += 1;
             }
+            // the token strings of 0..=l tokens once more, inside every frame
+            for (pre, post) in frames {
+                for len in 0..=l {
+                    let total = (k as u64).pow(len as u32);
+                    if idx + total <= lo {
+                        idx += total;
+                        continue;
+                    }
+                    for c in 0..total {
+                        if idx >= hi {
+                            return;
+                        }
+                        if idx >= lo {
+                            let mut s = String::from(*pre);
+                            let mut x = c;
+                            for _ in 0..len {
+                                s.push_str(tok[(x % k as u64) as usize]);
+                                x /= k as u64;
+                            }
+                            s.push_str(post);
+                            f(idx, s.as_bytes());
+                        }
+                        idx += 1;
+                    }
+                }
+            }
+        }
+        Class::Shift => {
+            let (bases, pos) = (shift_bases(seed), shift_positions(n));
+            for base in &bases {
+                let per = 1 + pos.iter().map(|p| BOUNDARY.iter().filter(|v| **v != base[*p]).count() as u64).sum::<u64>();
+                if idx + per <= lo {
+                    idx += per;
+                    continue;
+                }
+                if idx >= hi {
+                    return;
+                }
+                if idx >= lo {
+                    f(idx, base);
+                }
+                idx += 1;
+                let mut b = base.clone();
+                for p in &pos {
+                    for v in BOUNDARY {
+                        if v == base[*p] {
+                            continue;
+                        }
+                        if idx >= hi {
+                            return;
+                        }
+                        if idx >= lo {
+                            b[*p] = v;
+                            f(idx, &b);
+                            b[*p] = base[*p];
+                        }
+                        idx += 1;
+                    }
+                }
+            }
         }
         Class::Builder | Class::Fixture => {}
     }
@@ -1581,21 +1769,22 @@ pub mod bv {
         let t = u64::from(thorough);
         match fmt {
             "blte" => vec![5 + t, 3, 7],
-            "encoding" => vec![5 + t, 2, 3, 2, 3, 2],
-            "archive-index" => vec![2, 3, 6, 2],
+            "encoding" => vec![5 + t, 4, 3, 2, 3, 2, 3],
+            "archive-index" => vec![2, 3, 6, 2, 2],
             "archive-group" => vec![5, 2],
             "root" => vec![4, 32, 2],
             "install" => vec![10 + 8 * t, 3, 4, 2, 2],
             "download" => vec![3, 2, 5, 2, 4 + 2 * t, 2, 3],
-            "size" => vec![2, 3, 4, 4 + 2 * t, 2, 3, 3],
+            "size" => vec![2, 3, 4, 5 + 2 * t, 2, 3, 4],
             "tvfs" => vec![6, 5, 2],
             "zbsdiff" => vec![5, 5, 4],
-            "patch-archive" => vec![5, 2, 2, 2, 2, 4],
+            "patch-archive" => vec![5, 3, 2, 2, 2, 4],
             "patch-index" => vec![3, 4 + t],
-            "build-config" | "cdn-config" => vec![16, 3],
+            "build-config" => vec![16, 3],
+            "cdn-config" => vec![16, 3, 9],
             "patch-config" => vec![8, 3],
             "keyring-config" => vec![4, 2],
-            "bpsv" => vec![3, 3, 3, 2],
+            "bpsv" => vec![3, 3, 3, 2, 3],
             "espec" => vec![espec_values().len() as u64],
             _ => vec![0],
         }
@@ -1735,7 +1924,6 @@ pub mod bv {
     fn encoding(dg: &[u64]) -> Case {
         use cascette_formats::encoding::{CKeyEntryData, EKeyEntryData, EncodingBuilder};
         let n = [0u32, 1, 2, 3, 40, 400][dg[0] as usize];
-        let per = dg[1] as u32 + 1;
         let espec_of = |i: u32| -> &'static str {
             match dg[2] {
                 0 => "z",
@@ -1746,18 +1934,48 @@ pub mod bv {
         let trailing = dg[3] == 1;
         let (pc, pe) = [(1u16, 1u16), (1, 2), (4, 4)][dg[4] as usize];
         let desc_order = dg[5] == 1;
-        let desc = format!("encoding: {n} ckeys × {per} ekeys, especs pattern {}, trailing={trailing}, pages {pc}K/{pe}K, inserted {}", dg[2], if desc_order { "descending" } else { "ascending" });
+        // encoding keys per content key: 1 or 2 everywhere, or the first content key with as many
+        // as one CKey page can hold (an entry is 22 + 16·n bytes) and with one more than that
+        let fits = (u32::from(pc) * 1024 - 22) / 16;
+        let per_of = |i: u32| -> u32 {
+            match dg[1] {
+                0 => 1,
+                1 => 2,
+                2 => if i == 0 { fits } else { 1 },
+                _ => if i == 0 { fits + 1 } else { 1 },
+            }
+        };
+        let per_desc = ["1 ekey each", "2 ekeys each", "the first with as many ekeys as fit one page, 1 each otherwise", "the first with one ekey more than fits one page, 1 each otherwise"][dg[1] as usize];
+        // which of the two tables the program fills
+        let (fill_c, fill_e) = [(true, true), (true, false), (false, true)][dg[6] as usize];
+        let tables = ["CKey and EKey entries", "CKey entries only", "EKey entries only"][dg[6] as usize];
+        let desc = format!("encoding: {n} ckeys ({per_desc}; {tables}), especs pattern {}, trailing={trailing}, pages {pc}K/{pe}K, inserted {}", dg[2], if desc_order { "descending" } else { "ascending" });
         let mut b = EncodingBuilder::new().with_page_sizes(pc, pe);
         if trailing {
             b = b.with_trailing_espec("b:{22=n,*=z}".to_string());
         }
         let order: Vec<u32> = if desc_order { (0..n).rev().collect() } else { (0..n).collect() };
+        let (mut n_c, mut n_e) = (0usize, 0usize);
         for i in order {
-            let eks: Vec<EncodingKey> = (0..per).map(|j| EncodingKey::from_bytes(key(0xE0 + j as u8, i))).collect();
-            // sizes are 40-bit fields: the values stay inside what the format can say
-            b.add_ckey_entry(CKeyEntryData { content_key: ContentKey::from_bytes(key(0xC0, i)), file_size: 1000 + u64::from(i % 200) * 0x1_0000_0001, encoding_keys: eks.clone() });
-            for (j, ek) in eks.iter().enumerate() {
-                b.add_ekey_entry(EKeyEntryData { encoding_key: *ek, espec: espec_of(i + j as u32).to_string(), file_size: 500 + u64::from(i % 7) * 0x20_0000_0003 });
+            // distinct for every (i, j): j in the last two bytes
+            let eks: Vec<EncodingKey> = (0..per_of(i))
+                .map(|j| {
+                    let mut k = key(0xE0, i);
+                    k[14] = (j >> 8) as u8;
+                    k[15] = j as u8;
+                    EncodingKey::from_bytes(k)
+                })
+                .collect();
+            if fill_c {
+                // sizes are 40-bit fields: the values stay inside what the format can say
+                b.add_ckey_entry(CKeyEntryData { content_key: ContentKey::from_bytes(key(0xC0, i)), file_size: 1000 + u64::from(i % 200) * 0x1_0000_0001, encoding_keys: eks.clone() });
+                n_c += 1;
+            }
+            if fill_e {
+                for (j, ek) in eks.iter().enumerate() {
+                    b.add_ekey_entry(EKeyEntryData { encoding_key: *ek, espec: espec_of(i + j as u32).to_string(), file_size: 500 + u64::from(i % 7) * 0x20_0000_0003 });
+                    n_e += 1;
+                }
             }
         }
         done(
@@ -1767,8 +1985,23 @@ pub mod bv {
                 // what went in: n content keys, n × per encoding keys, the trailing spec
                 let y = f.build().map_err(|e| fix_err("built-value-unserialisable", "", e.to_string()))?;
                 let p: cascette_formats::encoding::EncodingFile = parsed(&y)?;
-                if p.ckey_count() != n as usize || p.ekey_count() != (n * per) as usize {
-                    return Err(fix_err("built-value-changed", "model:entry-count", format!("{n} content keys and {} encoding keys went in, parse(build) has {} and {}", n * per, p.ckey_count(), p.ekey_count())));
+                if p.ckey_count() != n_c || p.ekey_count() != n_e {
+                    return Err(fix_err("built-value-changed", "model:entry-count", format!("{n_c} content keys and {n_e} encoding keys went in, parse(build) has {} and {}", p.ckey_count(), p.ekey_count())));
+                }
+                // every encoding key of the first content key comes back (in order)
+                if fill_c && n > 0 {
+                    let want: Vec<EncodingKey> = (0..per_of(0))
+                        .map(|j| {
+                            let mut k = key(0xE0, 0);
+                            k[14] = (j >> 8) as u8;
+                            k[15] = j as u8;
+                            EncodingKey::from_bytes(k)
+                        })
+                        .collect();
+                    let got = p.find_all_encodings(&ContentKey::from_bytes(key(0xC0, 0)));
+                    if got != want {
+                        return Err(fix_err("built-value-changed", "model:encoding-keys", format!("{} encoding keys went in for the first content key, find_all_encodings on parse(build) returns {}", want.len(), got.len())));
+                    }
                 }
                 Ok(())
             }),
@@ -1783,16 +2016,29 @@ pub mod bv {
         let rpb = 4096 / (ks as usize + 4 + ob as usize);
         let n = [0usize, 1, 2, 3, rpb, rpb + 1][dg[2] as usize];
         let desc_order = dg[3] == 1;
-        let desc = format!("archive-index: with_config(key={ks}, offset_bytes={ob}, size_bytes=4), {n} entries inserted {}", if desc_order { "descending" } else { "ascending" });
+        // keys handed over in the configured length, or as full 16-byte keys (`add_entry_full`)
+        let full_keys = dg[4] == 1;
+        let desc = format!("archive-index: with_config(key={ks}, offset_bytes={ob}, size_bytes=4), {n} entries ({}) inserted {}", if full_keys { "add_entry_full, 16-byte keys" } else { "add_entry, keys of the configured length" }, if desc_order { "descending" } else { "ascending" });
         let mut b = ArchiveIndexBuilder::with_config(ks, ob, 4);
         let order: Vec<usize> = if desc_order { (0..n).rev().collect() } else { (0..n).collect() };
-        for i in order {
-            let off = match ob {
+        let off_of = |i: usize| -> u64 {
+            match ob {
                 4 => i as u64 * 4096,
                 5 => 0x1_0000_0000 + i as u64 * 4096,
                 _ => 0x0003_0000_0000 + i as u64 * 4096,
-            };
-            b.add_entry(key(0xA0, i as u32)[..ks as usize].to_vec(), 100 + i as u32, off);
+            }
+        };
+        for i in order {
+            if full_keys {
+                b.add_entry_full(key(0xA0, i as u32), 100 + i as u32, off_of(i));
+            } else {
+                b.add_entry(key(0xA0, i as u32)[..ks as usize].to_vec(), 100 + i as u32, off_of(i));
+            }
+        }
+        // what went in: an index of `ks`-byte keys says the first `ks` bytes of every key
+        let mut want = String::new();
+        for i in 0..n {
+            let _ = write!(want, "({} size={} at={:#x})", hex::encode(&key(0xA0, i as u32)[..ks as usize]), 100 + i as u32, off_of(i));
         }
         let mut buf = Vec::new();
         done(
@@ -1800,9 +2046,10 @@ pub mod bv {
             b.build(Cursor::new(&mut buf)).map_err(e2s).map(|v| {
                 let p = ArchiveIndex::parse(Cursor::new(&buf[..])).map_err(|e| fix_err("built-value-unparseable", norm_err(&e.to_string()), format!("parse rejects the {} bytes the builder wrote: {e}", buf.len())))?;
                 match first_diff(&proj::archive_index(&v, &[]), &proj::archive_index(&p, &[])) {
-                    None => Ok(()),
-                    Some((s, d)) => Err(fix_err("built-value-changed", s, format!("the index the builder returned and parse(bytes it wrote) differ: {d}"))),
+                    None => {}
+                    Some((s, d)) => return Err(fix_err("built-value-changed", s, format!("the index the builder returned and parse(bytes it wrote) differ: {d}"))),
                 }
+                against_model(&vec![("params", format!("version=1 page_kb=4 offset_bytes={ob} size_bytes=4 ekey_length={ks}")), ("entries", want)], &proj::archive_index(&p, &[]))
             }),
         )
     }
@@ -2019,11 +2266,13 @@ pub mod bv {
         let v = dg[0] as u8 + 1;
         let ks = [1u8, 9, 16][dg[1] as usize];
         let w = [1u8, 3, 4, 8][dg[2] as usize];
-        let n = [0usize, 1, 8, 9, 16, 17][dg[3] as usize];
+        // 257 entries of the largest 4-byte esize add up to more than the 40 bits of a V2 header
+        let n = [0usize, 1, 8, 9, 257, 16, 17][dg[3] as usize];
         let nt = if dg[4] == 1 { 2 } else { 0 };
         let pattern = dg[5];
         let width = if v == 2 { 4 } else { w };
         let max: u64 = if width >= 7 { 1 << 52 } else { (1u64 << (8 * u32::from(width))) - 1 };
+        let true_max: u64 = if width >= 8 { u64::MAX } else { (1u64 << (8 * u32::from(width))) - 1 };
         let esize = |i: usize| -> u64 {
             match dg[6] {
                 0 => 1 + i as u64 * 13,
@@ -2035,16 +2284,18 @@ pub mod bv {
                     }
                 }
                 // one past what the width can hold (the builder takes a u64)
-                _ => {
+                2 => {
                     if i == 0 && width < 7 {
                         max + 1
                     } else {
                         i as u64
                     }
                 }
+                // every entry as large as its field allows: the total is what grows
+                _ => true_max,
             }
         };
-        let desc = format!("size: V{v} ekey_size={ks} esize_bytes={w}, {n} entries, {nt} tags, membership pattern {pattern}, esize class {}", ["small", "largest for the width", "one past the width"][dg[6] as usize]);
+        let desc = format!("size: V{v} ekey_size={ks} esize_bytes={w}, {n} entries, {nt} tags, membership pattern {pattern}, esize class {}", ["small", "largest for the width", "one past the width", "every entry the largest its field can hold"][dg[6] as usize]);
         let tag_defs = [("Windows", TagType::Platform), ("enUS", TagType::Locale)];
         let mut b = SizeManifestBuilder::new().version(v).ekey_size(ks).esize_bytes(w);
         for (name, ty) in tag_defs.iter().take(nt) {
@@ -2161,7 +2412,15 @@ pub mod bv {
     fn patch_archive(dg: &[u64]) -> Case {
         use cascette_formats::patch_archive::{PatchArchive, PatchArchiveBuilder, PatchArchiveEncodingInfo};
         let n = [0u32, 1, 2, 3, 70][dg[0] as usize];
-        let per = dg[1] as u32 + 1;
+        // patches per file entry: 1, 2, or none for every other entry (starting with the first)
+        let per_of = |i: u32| -> u32 {
+            match dg[1] {
+                0 => 1,
+                1 => 2,
+                _ => i % 2,
+            }
+        };
+        let per = ["1", "2", "0 (even entries) / 1 (odd entries)"][dg[1] as usize];
         let info = dg[2] == 1;
         let version = dg[3] as u8 + 1;
         let rev = dg[4] == 1;
@@ -2184,7 +2443,7 @@ pub mod bv {
         let order: Vec<u32> = if rev { (0..n).rev().collect() } else { (0..n).collect() };
         let mut es: Vec<String> = Vec::new();
         for i in order {
-            let patches: Vec<([u8; 16], u64, [u8; 16], u32, u8)> = (0..per).map(|j| (key(0x5A + j as u8, i), 0xFF_0000_0000 + u64::from(i), key(0x5C + j as u8, i), 200 + i, j as u8)).collect();
+            let patches: Vec<([u8; 16], u64, [u8; 16], u32, u8)> = (0..per_of(i)).map(|j| (key(0x5A + j as u8, i), 0xFF_0000_0000 + u64::from(i), key(0x5C + j as u8, i), 200 + i, j as u8)).collect();
             let mut s = format!("({} size={}:", hex::encode(cut(key(0x58, i), kf)), 2000 + u64::from(i));
             for p in &patches {
                 let _ = write!(s, " [src={} srcsize={} patch={} psize={} idx={}]", hex::encode(cut(p.0, ko)), p.1, hex::encode(cut(p.2, kp)), p.3, p.4);
@@ -2256,12 +2515,33 @@ pub mod bv {
         use cascette_formats::config::CdnConfig;
         let keys = ["archives", "archive-group", "file-index", "x-custom"];
         let chosen: Vec<&str> = (0..4).filter(|i| dg[0] >> i & 1 == 1).map(|i| keys[i]).collect();
-        let desc = format!("cdn-config: set {chosen:?}, value shape {}", ["one value", "two values", "no value"][dg[1] as usize]);
+        // the typed setter: three archives, every pattern of known / unknown index sizes
+        let pattern = dg[2];
+        let archives: Vec<(String, Option<u64>)> = if pattern == 0 { Vec::new() } else { (0..3u64).map(|i| (format!("{:032x}", 0xa0a0_0000u64 + i), if (pattern - 1) >> i & 1 == 1 { Some(10 * (i + 1)) } else { None })).collect() };
+        let desc = format!(
+            "cdn-config: set {chosen:?}, value shape {}{}",
+            ["one value", "two values", "no value"][dg[1] as usize],
+            if pattern == 0 { String::new() } else { format!(", set_archives with index sizes {:?}", archives.iter().map(|a| a.1).collect::<Vec<_>>()) }
+        );
         let mut c = CdnConfig::new();
         for (i, k) in chosen.iter().enumerate() {
             c.set(*k, values(dg[1], i));
         }
-        done(desc, Ok(roundtrip(&c, proj::cdn_config)))
+        if pattern > 0 {
+            c.set_archives(archives.iter().map(|(k, s)| cascette_formats::config::ArchiveInfo { content_key: k.clone(), index_size: *s }).collect());
+        }
+        let r = (|| -> FixResult {
+            roundtrip(&c, proj::cdn_config)?;
+            if pattern > 0 {
+                // what went in: archive → index size, by the typed getter of the re-read config
+                let p: CdnConfig = parsed(&c.build())?;
+                let show = |v: &[(String, Option<u64>)]| v.iter().map(|(k, s)| format!("({k} size={s:?})")).collect::<String>();
+                let got: Vec<(String, Option<u64>)> = p.archives().into_iter().map(|a| (a.content_key, a.index_size)).collect();
+                against_model(&vec![("archives", show(&archives))], &vec![("archives", show(&got))])?;
+            }
+            Ok(())
+        })();
+        done(desc, Ok(r))
     }
 
     fn patch_config(dg: &[u64]) -> Case {
@@ -2306,7 +2586,14 @@ pub mod bv {
         let nr = dg[1] as usize;
         let pat = dg[2];
         let seqn = dg[3] == 1;
-        let desc = format!("bpsv: {nf} fields of [Region!STRING:0, BuildConfig!HEX:16, BuildId!DEC:4], {nr} rows, cell pattern {}, seqn {seqn}", ["all set", "some empty", "negative/upper"][pat as usize]);
+        // first cell of the first row: a plain word, a text that starts with the comment
+        // character, or empty
+        let first = dg[4];
+        let desc = format!(
+            "bpsv: {nf} fields of [Region!STRING:0, BuildConfig!HEX:16, BuildId!DEC:4], {nr} rows, cell pattern {}, seqn {seqn}, first cell of the first row {}",
+            ["all set", "some empty", "negative/upper"][pat as usize],
+            ["a word", "\"#1 build\"", "empty"][first as usize]
+        );
         let fields = [BpsvField::new("Region", BpsvType::String(0)), BpsvField::new("BuildConfig", BpsvType::Hex(16)), BpsvField::new("BuildId", BpsvType::Dec(4))];
         let mut b = BpsvBuilder::new();
         b.add_fields(fields[..nf].to_vec());
@@ -2317,7 +2604,8 @@ pub mod bv {
         for r in 0..nr {
             let cells: Vec<BpsvValue> = (0..nf)
                 .map(|c| match (c, pat) {
-                    // the first column is never empty: a row of empty cells is an empty line
+                    (0, _) if r == 0 && first == 1 => BpsvValue::String("#1 build".to_string()),
+                    (0, _) if r == 0 && first == 2 => BpsvValue::Empty,
                     (0, _) => BpsvValue::String(["us", "eu"][r % 2].to_string()),
                     (_, 1) if (r + c) % 2 == 0 => BpsvValue::Empty,
                     (1, _) => BpsvValue::Hex(vec![0xAB, 0x00 + r as u8, 0xFF]),
@@ -2333,7 +2621,16 @@ pub mod bv {
             return done(desc, Err(e));
         }
         let doc = b.build();
-        done(desc, Ok(roundtrip(&doc, proj::bpsv)))
+        let r = (|| -> FixResult {
+            roundtrip(&doc, proj::bpsv)?;
+            // what went in: nr rows
+            let p: cascette_formats::bpsv::BpsvDocument = parsed(&CascFormat::build(&doc).map_err(|e| fix_err("built-value-unserialisable", "", e.to_string()))?)?;
+            if p.row_count() != nr {
+                return Err(fix_err("built-value-changed", "model:row-count", format!("{nr} rows went in, parse(build) has {}", p.row_count())));
+            }
+            Ok(())
+        })();
+        done(desc, Ok(r))
     }
 
     // ---- ESpec
@@ -2343,14 +2640,10 @@ pub mod bv {
         for level in [None, Some(1u8), Some(9)] {
             for variant in [None, Some(ZLibVariant::MPQ), Some(ZLibVariant::ZLib), Some(ZLibVariant::LZ4HC)] {
                 for window_bits in [None, Some(15u8)] {
-                    // The ESpec grammar writes variant and window bits only after a level
-                    // ("z:{15}" reads as level 15, "z:{mpq}" is no ESpec): values without a
-                    // level but with one of the two are outside what the text format can say
-                    // and outside what the parser produces; they are not part of the alphabet
-                    // (decision in the direction of not alarming; `Display` does print them).
-                    if level.is_none() && (variant.is_some() || window_bits.is_some()) {
-                        continue;
-                    }
+                    // A zlib spec without a level but with a variant or window bits is a value
+                    // the parser produces ("z:{,mpq}", "z:{,15}" are accepted) and a form the
+                    // format documentation lists ("z:{mpq}", "z:{mpq,15}" in
+                    // docs/src/compression/espec.md): part of the alphabet.
                     leaves.push(ESpec::ZLib { level, variant: variant.clone(), window_bits });
                 }
             }
@@ -2721,6 +3014,9 @@ fn plan(tier: Tier, mode: &str, only_fix: bool) -> (Vec<Value>, u64, Vec<Value>)
             if thorough && (!c08 || seed.len() <= C08_ALL_POSITIONS_MAX) {
                 classes.push(Class::Pair);
             }
+            if seed.len() <= SHIFT_MAX {
+                classes.push(Class::Shift);
+            }
             if big && !thorough && seed.len() > 60_000 {
                 // very large fixtures: windows + extensions only in the quick tier
                 classes.retain(|c| matches!(c, Class::Window | Class::Ext | Class::Stride));
@@ -2802,14 +3098,14 @@ fn run_mode(prop: &str, mode: &str, tier: Tier, seed: u64) -> i32 {
         all.append(&mut tasks);
         tasks = all;
     }
-    rep.set_rule("per target × seed (repository fixtures and small builder-made artifacts): every byte substitution (all 255 values for every builder-made seed and every fixture ≤ 640 bytes, except — quick tier only — inside zero fill more than 48 bytes away from the nearest non-zero byte; thorough: all 255 values everywhere in every seed ≤ 4352 bytes; the boundary set {00,01,7F,80,FE,FF,b-1,b+1,b^80} otherwise), every truncation length, extensions by 1/16/4096 bytes of 00/FF, every 2/3/4/5/8-byte window within 64 bytes of start/end set to {0,1,mid,mid+1,max-1,max} in both endiannesses, (thorough) every pair of 1/2/4-byte boundary windows within 32 bytes of start/end; seeds above 4352 bytes are substituted at every position in the thorough tier (C08: up to 32 KiB; above that, and in the quick tier, at the first and last 512 positions and every 61st in between; C08 also leaves the pair class out above 32 KiB); text targets additionally every string of ≤L grammar tokens and every string of ≤2 arbitrary bytes; every generated case differs from its seed and from every other case of the same (seed, class)");
+    rep.set_rule("per target × seed (repository fixtures and small builder-made artifacts): every byte substitution (all 255 values for every builder-made seed and every fixture ≤ 640 bytes, except — quick tier only — inside zero fill more than 48 bytes away from the nearest non-zero byte; thorough: all 255 values everywhere in every seed ≤ 4352 bytes; the boundary set {00,01,7F,80,FE,FF,b-1,b+1,b^80} otherwise), every truncation length, extensions by 1/16/4096 bytes of 00/FF, every 2/3/4/5/8-byte window within 64 bytes of start/end set to {0,1,mid,mid+1,max-1,max} in both endiannesses, (thorough) every pair of 1/2/4-byte boundary windows within 32 bytes of start/end; seeds above 4352 bytes are substituted at every position in the thorough tier (C08: up to 32 KiB; above that, and in the quick tier, at the first and last 512 positions and every 61st in between; C08 also leaves the pair class out above 32 KiB); every seed ≤ 8 KiB moved by 1/2/4/8/16 bytes inside its own length (towards the end or towards the start, the gap filled with 00 or FF), alone and with one boundary value {00,01,7F,80,FE,FF} substituted in its first or last 32 bytes; text targets additionally every string of ≤L grammar tokens — on its own and, for ESpec, inside every frame (prefix, suffix) cut out of a real spec at a parameter position: the zlib parameter list, the size and the content specification of a block, the content specification of an encrypted block — and every string of ≤2 arbitrary bytes; every generated mutant differs from its seed and from every other case of the same (seed, class)");
     if c08 {
         rep.set_rule("C08 counts as non-trivial: (i) every mutant the parser accepts (fixed-point and logical-projection check), (ii) every builder program (mixed-radix enumeration of the format's small call alphabet, each combination once) for which the builder produced a value, (iii) every fixture (every ESpec string of the ESpec fixture lists) the parser of its format accepts");
     } else {
         rep.set_rule("distinct_nontrivial = cases evaluated");
     }
     rep.assume("isolation: each case runs in a worker process under catch_unwind with a counting allocator (single requests above 1 GiB + 64 MiB are refused; non-decompressing targets may not request more than max(16 MiB, 4096 × input length) at once); 5 s of CPU time per case (or 100 s without progress)");
-    rep.assume("inputs more than one (thorough: two header/footer) deviations away from every seed are not reached");
+    rep.assume("inputs more than one (thorough: two header/footer) deviations away from every seed are not reached (a shift of the whole seed counts as one deviation)");
     if c08 {
         rep.assume("the logical projections of module `proj` (what counts as content per format) and the models of what was put into the bytes-only builders (root, TVFS, patch archive, patch index, ZBSDIFF) are trusted; the text configs expose no key iterator: their projection looks up every key that occurs in front of a '=' in the input or in the rebuilt text");
     }
